@@ -1,19 +1,24 @@
-use similari::utils::bbox::Universal2DBox;
-use similari::utils::kalman::kalman_2d_box::Universal2DBoxKalmanFilter;
+use vh::trk::*;
+use vh::Rng;
+use std::time::Instant;
 fn main() {
-    let f = Universal2DBoxKalmanFilter::new(0.026005830615758896, 0.008322765119373798);
-    let mut h = 83.5f32;
-    let mut st = f.initiate(&Universal2DBox::new(50.0, 60.0, None, 1.0, h));
-    for _ in 0..40 { h *= 0.992; st = f.predict(&st); st = f.update(&st, &Universal2DBox::new(50.0, 60.0, None, 1.0, h)); }
-    for t in 1..=200 {
-        st = f.predict(&st);
-        if t % 10 == 0 {
-            let (m, c) = st.verif_raw();
-            let z = Universal2DBox::new(55.0, 58.0, None, 1.0, 20.0);
-            let d = f.distance(st, &z);
-            let s2 = f.update(&st, &z);
-            let (m2, c2) = s2.verif_raw();
-            println!("t={} Ppos={:e} h={} vh={} dist={} -> after update Ppos={:e} Pyy={:e} Pang={:e} Ph={:e} mean={:?}", t, c[0], m[4], m[9], d, c2[0], c2[11], c2[22], c2[44], &m2[0..5]);
+    let mut rng = Rng::for_case(1, 0, 1);
+    for kind in [Kind::Sort, Kind::BatchSort, Kind::Visual] {
+        let mut cfg = gen_cfg(&mut rng, kind);
+        cfg.shards = 2;
+        let mut trk = AnyTracker::new(&cfg);
+        let t0 = Instant::now();
+        let mut cell = 0u64;
+        for _ in 0..10 {
+            let dets: Vec<Det> = (0..150).map(|_| { let (cx, cy) = ((cell % 64) as f32 * 60.0 + 20.0, (cell / 64) as f32 * 60.0 + 20.0); cell += 1; Det { b: DBox { xc: cx, yc: cy, angle: None, aspect: 0.8, h: 30.0, conf: 0.9 }, custom: None, feature: None, quality: None, truth: 0 } }).collect();
+            trk.predict(1_000_000, &dets);
         }
+        let t1 = Instant::now();
+        let dets: Vec<Det> = (0..14).map(|i| Det { b: DBox { xc: 10.0 + 3.0 * i as f32, yc: 5.0, angle: None, aspect: 0.8, h: 30.0, conf: 0.9 }, custom: None, feature: None, quality: None, truth: 0 }).collect();
+        for _ in 0..10 { trk.predict(0, &dets); }
+        let t2 = Instant::now();
+        for _ in 0..10 { let _ = trk.live(); }
+        let t3 = Instant::now();
+        println!("{:?} pos={:?}: create 1500: {:?}, 10 predicts: {:?}, 10 live(): {:?}", kind, cfg.pos, t1 - t0, t2 - t1, t3 - t2);
     }
 }
